@@ -27,6 +27,9 @@ func dispatch(cmd string, args []string) bool {
 			os.Exit(1)
 		}
 		return true
+	case "casts":
+		castsCmd(args)
+		return true
 	case "extract":
 		repo, out := "/repo", "/verif/lean/PGT/Generated"
 		if len(args) > 0 {
